@@ -15,7 +15,9 @@ import (
 // C03 Mailbox ordering: per-sender FIFO within a priority, strict priority classes.
 
 type C03Op struct {
-	Kind string `json:"kind"` // msg | exit | inspect | down | log
+	Kind string `json:"kind"` // msg | exit | inspect | down | log | failprio (a High/Max priority send to nobody, which fails)
+	// Plain (msg, prio 0): Send instead of SendWithPriority(Normal)
+	Plain bool `json:"plain,omitempty"`
 	Mode string `json:"mode"` // pid | name | alias
 	Prio int    `json:"prio"`
 }
@@ -79,6 +81,14 @@ func (c03) Generate(r *simkit.Rand, tier string) any {
 				if !s.Actor && c.Kind == "actor" {
 					op.Kind = "log"
 				}
+			case 4:
+				if s.Actor {
+					op.Kind = "failprio"
+					op.Prio = simkit.Pick(r, 1, 2)
+				}
+			}
+			if op.Kind == "msg" && op.Prio == 0 && s.Actor {
+				op.Plain = r.Bool()
 			}
 			if c.Kind == "pool" && op.Kind == "msg" && op.Prio == 0 {
 				op.Prio = simkit.Pick(r, 1, 2)
@@ -297,8 +307,18 @@ func (c03) Run(e *simkit.Env, cc any) {
 			var err error
 			sender, seq := si, j
 			switch op.Kind {
+			case "failprio":
+				// a send with a raised priority that fails must leave no trace in the sender
+				if ferr := p.SendWithPriority(gen.Atom("nobody-c03"), pl, prioOf(op.Prio)); ferr == nil {
+					e.Fail("C03/unexpected-failure", "a send to an unregistered name succeeded")
+					return
+				}
+				e.Probe("failed-priority-send")
+				continue
 			case "msg":
-				if p != nil {
+				if p != nil && op.Plain && op.Prio == 0 {
+					err = p.Send(to, pl)
+				} else if p != nil {
 					err = p.SendWithPriority(to, pl, prioOf(op.Prio))
 				} else {
 					err = n.SendWithPriority(to, pl, prioOf(op.Prio))
